@@ -47,7 +47,7 @@ func init() {
 		Assumptions: []string{"Get only for i < words(s); ToStr only on in-range word values; from >= 0; end = -1 or >= 0"},
 		Flavours:    releaseAnd386,
 		Required: []string{"w=1", "w=2", "w=4", "w=8", "tostr/partial-last-byte", "tostr/empty", "firstdiff/end=-1", "firstdiff/from>=lim", "firstdiff/end-beyond-shorter", "firstdiff/found", "firstdiff/none",
-			"firstdiff/prefix-pair", "firstdiff/end>=MaxInt/8", "strs/empty-list", "strs/append-to-element", "strs/batch>=4096", "strs/tostrs-partial-byte-element-not-last", "strs/tostrs-overlapping-views", "byte>=0x80", "len>=300", "tostr/long-result-retained"},
+			"firstdiff/prefix-pair", "firstdiff/end>=MaxInt/8", "firstdiff/end<-1", "strs/empty-list", "strs/append-to-element", "strs/batch>=4096", "strs/tostrs-partial-byte-element-not-last", "strs/tostrs-overlapping-views", "byte>=0x80", "len>=300", "tostr/long-result-retained"},
 		Families: func(c *mon.Config) []mon.Family {
 			return []mon.Family{
 				{Name: "cold-start", N: 1, Serial: true, Run: c08Cold},
@@ -315,7 +315,8 @@ func c08FirstDiff(w *mon.W, idx int) {
 	wmax := max(wa, wb)
 	var ev int64
 	for from := 0; from <= wmax+2; from++ {
-		for end := -1; end <= wmax+3; end++ {
+		// end = -1 is the only sentinel: -2, -3, -4 are ordinary (empty-window) ends, lim = end
+		for end := -4; end <= wmax+3; end++ {
 			lim := end
 			if end == -1 {
 				lim = wa
@@ -339,6 +340,9 @@ func c08FirstDiff(w *mon.W, idx int) {
 			if end == -1 {
 				w.Bucket("firstdiff/end=-1")
 			}
+			if end < -1 {
+				w.Bucket("firstdiff/end<-1")
+			}
 			if from >= lim {
 				w.Bucket("firstdiff/from>=lim")
 			} else if exp < lim {
@@ -354,7 +358,7 @@ func c08FirstDiff(w *mon.W, idx int) {
 	// windows at the extreme of the int domain: a huge end means "up to the end of the shorter
 	// string", a huge from means an empty window
 	const maxInt = int(^uint(0) >> 1)
-	for _, end := range []int{maxInt, maxInt - 1, maxInt / 2, maxInt/2 + 1, maxInt / 8, maxInt/8 + 1, maxInt >> 16, 1<<31 - 1, maxInt>>31 + 1} {
+	for _, end := range []int{maxInt, maxInt - 1, maxInt / 2, maxInt/2 + 1, maxInt / 8, maxInt/8 + 1, maxInt >> 16, 1<<31 - 1, maxInt>>31 + 1, -maxInt - 1, -maxInt, -maxInt / 2, -1 << 31, -2} {
 		for _, from := range []int{0, 1, wmax, maxInt, maxInt / 2, maxInt/8 + 1, maxInt>>31 + 7} {
 			lim := min(end, min(wa, wb))
 			exp := lim
